@@ -466,9 +466,72 @@ func runC08(r *Rng, n int, replay string) {
 			}
 		}
 	}
+	runC08Nested(r, n)
 }
 
-// obsData is the comparable payload of a successful result.
+// mem.FS has no Sub of its own: hackpadfs.Sub on it builds the generic view, which exposes Open and a Mount that
+// TRANSLATES names -- the capability subset "MountFS only, with a non-identity mount".
+
+// runC08Nested: every helper through two nested generic views, Sub(Sub(fs, "a"), "b"), against the same helper applied
+// directly at "a/b/<name>": same result, same final state.  (The second Sub goes through the helper's MountFS branch.)
+func runC08Nested(r *Rng, firstID int) {
+	helpers := []string{"ReadFile", "WriteFullFile", "Stat", "ReadDir", "Mkdir", "MkdirAll", "Remove", "RemoveAll", "Chmod", "Chtimes", "Create", "OpenFile"}
+	names := []string{"f", "nf", "d", ".", "d/g", "b", "a"}
+	mk := func() hackpadfs.FS {
+		fs := newMem()
+		for _, d := range []string{"a", "a/b", "a/b/d", "b", "b/d", "a/b/b", "a/b/a"} {
+			_ = hackpadfs.Mkdir(fs, d, 0o755)
+		}
+		_ = hackpadfs.WriteFullFile(fs, "a/b/f", []byte("inner"), 0o644)
+		_ = hackpadfs.WriteFullFile(fs, "b/f", []byte("outer"), 0o600)
+		_ = hackpadfs.WriteFullFile(fs, "a/f", []byte("middle"), 0o640)
+		_ = hackpadfs.WriteFullFile(fs, "a/b/d/g", []byte("g"), 0o644)
+		return fs
+	}
+	cands := candidatePaths([]string{"a", "b", "d", "f", "nf", "g"}, 4)
+	id := firstID
+	for _, h := range helpers {
+		for _, name := range names {
+			refFS, implFS := mk(), mk()
+			v1, err := hackpadfs.Sub(implFS, "a")
+			c := &Case{ID: id, Kind: "nested/" + h, Trivial: true}
+			id++
+			c.Cells = []string{"nested/" + h}
+			if err != nil {
+				c.fail(fmt.Sprintf("[nested] Sub(fs without SubFS, %q) failed: %v", "a", err), "nested:setup")
+				emit(c)
+				continue
+			}
+			v2, err := hackpadfs.Sub(v1, "b")
+			if err != nil {
+				c.fail(fmt.Sprintf("[nested] Sub(Sub(fs, %q), %q) failed although a/b is a directory: %v", "a", "b", err), "nested:setup2")
+				emit(c)
+				continue
+			}
+			arg := Op{P: name, Perm: 0o641, Data: []byte("new"), T: 55, Flag: fRDWR | fCREATE}
+			direct := arg
+			direct.P = "a/b/" + name
+			if name == "." {
+				direct.P = "a/b"
+			}
+			want := callHelper(refFS, h, direct)
+			got := callHelper(v2, h, arg)
+			c.Text = []string{fmt.Sprintf("[nested] %s(%q) through Sub(Sub(fs,\"a\"),\"b\"): %s   | directly at %q: %s", h, name, got, direct.P, want)}
+			switch {
+			case got.Kind == "panic":
+				c.fail(c.Text[0]+": panicked", "nested:"+h+":panic")
+			case got.failed() != want.failed() || (!got.failed() && obsData(got) != obsData(want) && !(h == "Stat" && name == ".")):
+				c.fail(c.Text[0]+": the result through the nested views differs from the direct one", "nested:"+h+":result")
+			default:
+				if d := snapDiffExact(Snapshot(refFS, cands), Snapshot(implFS, cands)); d != "" {
+					c.fail(c.Text[0]+": the final state differs from the direct call's: "+d, "nested:"+h+":state")
+				}
+			}
+			emit(c)
+		}
+	}
+}
+
 func obsData(o Obs) string {
 	switch o.Kind {
 	case "info":
